@@ -186,6 +186,19 @@ def apalache_check(workdir, module_path, args, timeout=900):
     raise ToolError("apalache failed:\n" + p.stdout[-3000:])
 
 
+def tlapm_check(module_path, timeout=900):
+    """Run the TLA+ proof system on a module; returns (proved, total). Tool failures raise."""
+    p = sh(["timeout", str(timeout), "tlapm", "--threads", "8", "--cleanfp", os.path.basename(module_path)],
+           cwd=os.path.dirname(module_path), check=False, timeout=timeout + 30)
+    m = re.search(r"All (\d+) obligations? proved", p.stdout)
+    if m:
+        return int(m.group(1)), int(m.group(1))
+    m = re.search(r"(\d+)/(\d+) obligations failed", p.stdout)
+    if m:
+        return int(m.group(2)) - int(m.group(1)), int(m.group(2))
+    raise ToolError("tlapm failed:\n" + p.stdout[-3000:])
+
+
 # ---------------------------------------------------------------------------------------
 # harness runs
 
